@@ -60,6 +60,14 @@ def main(prop, tier, seed, replay_path=None):
 
     if replay_path:
         obj = json.load(open(replay_path))
+        # the specification oracle / extracted model, when this property's replay uses them and they have been built by a check run
+        for attr, name in (("oracle", getattr(mod, "ORACLE", None)), ("driver", getattr(mod, "DRIVER", None))):
+            if name:
+                try:
+                    with core.Lock():
+                        setattr(ctx, attr, core.get_driver(name)[0])
+                except Exception:  # noqa
+                    pass
         still = mod.replay(ctx, obj) if hasattr(mod, "replay") else None
         print("replay %s: %s" % (replay_path, {True: "still violates", False: "no longer violates",
                                                  None: "no replay procedure for this entry"}[still]))
